@@ -65,7 +65,7 @@ pub fn internal_mode(mode: &str, args: &[String]) -> i32 {
         // decoder worker of engine E (C15): requests on stdin, answers on stdout
         "codec-worker" => prop_c15::worker_main(),
         // crash engine (C13): re-executes a victim operation and is aborted at an armed probe
-        "crash-child" => prop_c13::crash_child_main(_args),
+        "crash-child" => prop_c13::crash_child_main(args),
         // sensitivity self-test of the C14 oracles (mutant codecs, projection edits)
         "codec-selftest" => {
             framework::install_quiet_panic_hook();
